@@ -2008,8 +2008,7 @@ func opcodeCheckSig(op *ParsedOpcode, t *thread) error {
 
 	pubKey, err := bec.ParsePubKey(pkBytes, bec.S256())
 	if err != nil {
-		t.dstack.PushBool(false)
-		return nil //nolint:nilerr // only need a false push in this case
+		return t.checkSigFailed(fullSigBytes)
 	}
 
 	var signature *bec.Signature
@@ -2019,16 +2018,26 @@ func opcodeCheckSig(op *ParsedOpcode, t *thread) error {
 		signature, err = bec.ParseSignature(sigBytes, bec.S256())
 	}
 	if err != nil {
-		t.dstack.PushBool(false)
-		return nil //nolint:nilerr // only need a false push in this case
+		return t.checkSigFailed(fullSigBytes)
 	}
 
-	ok := signature.Verify(hash, pubKey)
-	if !ok && t.hasFlag(scriptflag.VerifyNullFail) && len(sigBytes) > 0 {
+	if !signature.Verify(hash, pubKey) {
+		return t.checkSigFailed(fullSigBytes)
+	}
+
+	t.dstack.PushBool(true)
+	return nil
+}
+
+// checkSigFailed records a failed signature check: false is pushed, unless
+// the null fail flag is set and the signature (hash type included) is not
+// empty, which is an error whatever the reason of the failure.
+func (t *thread) checkSigFailed(fullSigBytes []byte) error {
+	if t.hasFlag(scriptflag.VerifyNullFail) && len(fullSigBytes) > 0 {
 		return errs.NewError(errs.ErrNullFail, "signature not empty on failed checksig")
 	}
 
-	t.dstack.PushBool(ok)
+	t.dstack.PushBool(false)
 	return nil
 }
 
